@@ -209,6 +209,10 @@ def show_iv(I) -> str:
     return f"[{mpmath.nstr(lo(I), 20)}, {mpmath.nstr(hi(I), 20)}]"
 
 
+def _bits(q) -> int:
+    return q.numerator.bit_length() + q.denominator.bit_length()
+
+
 class R:
     """Result of ref_eval for one (term, point).
 
@@ -225,6 +229,8 @@ class R:
 
     def __init__(self, status, real=None, dy=False, fx=None, fi=None, f5=False, why=None):
         self.status = status
+        if real is not None and _bits(real) > 8192:
+            real = None          # exact rationals of nested powers grow exponentially: beyond 8192 bits the enclosure decides
         self.real = real
         self.dy = dy
         self.fx = fx
@@ -441,7 +447,7 @@ def _op_npow(t, kids, dy, f5, reals, have_reals, all_fx):
             l_lo = abs(mpmath.log(m_lo, 2)) if m_lo > 0 else l_hi
             if n * max(l_hi, l_lo) > 1200:
                 return R("range", why="integer power far outside the double range")
-    real = reals[0] ** n if have_reals and abs(n) <= 4096 else None
+    real = reals[0] ** n if have_reals and abs(n) <= 4096 and _bits(reals[0]) * abs(n) <= 65536 else None
     if all_fx and n <= 4096:
         p = a.fx ** n
         if representable(p):
